@@ -828,7 +828,7 @@ void mon_boundary_eval(void)
             if (pr->op != OP_CWAIT || !pred_observed(pr, W.guards[g].idx)) continue;
             /* a waiter whose predicate was true all along is not owed a wake-up: nothing has signalled since it came */
             if (pr->cond_seen_false && pred_now(pr->id)) {
-                pend_viol("C13", k == 0 ? "became-true-still-queued/head" : "became-true-still-queued/non-head",
+                pend_viol("C13", "became-true-still-queued",
                           "condition %d: waiter %d (position %d of %d) has a true predicate at the end of instant t=%g and was not resumed", W.guards[g].idx, pr->id, k + 1, n, now);
                 break;
             }
